@@ -14,6 +14,14 @@
 //! kinds, and the gamuts of built-in operators, are instantiated with spelled values;
 //! `ctx.params` is compared with a reference parser written from the documentation
 //! (decimal / sexagesimal d:m:s with hemisphere letter, exact rational arithmetic).
+//!
+//! Part 3 (flags are true when present): every spelling of presence of a flag (bare, `=true`
+//! in any letter case, the explicit empty value `key=` in front of every kind of step end,
+//! blanks around '=', subscript keys) crossed with every place a flag is read (gamut flags of
+//! the built-ins, `inv`, `omit_fwd`/`omit_inv` on elementary steps and on macro invocations,
+//! flags handed down through macro arguments, macro bodies); absolute oracle: identical to the
+//! bare flag (step list, typed parameters, apply results), which itself must do what the
+//! documentation says (closed form for addone definitions, set in ctx.params, observable).
 
 use geodesy::authoring::*;
 use proptest::prelude::*;
@@ -1726,7 +1734,10 @@ fn expect_for(k: &KeySpec, given: Option<&Option<String>>) -> (Expect, &'static 
         Kind::Flag => match v {
             None => (Expect::Flag(Want::Valid(true)), "bare"),
             Some(t) if t == "true" => (Expect::Flag(Want::Valid(true)), "equals-true"),
-            Some(t) if t.is_empty() || t.to_lowercase() == "true" => (Expect::Flag(Want::Odd(Some(true))), "true-variant"),
+            // a flag is "true if present" (OpParameter::Flag): the explicit empty value `flag=` and
+            // the boolean constant in any letter case are spellings of presence, not odd values
+            Some(t) if t.is_empty() => (Expect::Flag(Want::Valid(true)), "empty"),
+            Some(t) if t.to_lowercase() == "true" => (Expect::Flag(Want::Valid(true)), "true-any-case"),
             Some(_) => (Expect::Flag(Want::Odd(Some(false))), "other-text"),
         },
         Kind::Nat => {
@@ -1932,7 +1943,7 @@ const INT_ADV: [&str; 17] = [
     "0", "-0", "+7", "-007", "9223372036854775807", "-9223372036854775808", "9223372036854775808", "-9223372036854775809", "1.5", "-", "+", "", "abc", "1e3", "1:30",
     "−5", "5é",
 ];
-const FLAG_ADV: [&str; 6] = ["true", "TRUE", "false", "0", "yes", ""];
+const FLAG_ADV: [&str; 11] = ["true", "TRUE", "false", "0", "yes", "", "True", "tRuE", "FALSE", "1", "no"];
 const SERIES_ADV: [&str; 14] = ["1,2,", "1,,2", ",1", "", "a,b", "1,b", "1;2", "1:2:3:4,1", "1,5é5", "0.5,-0:30", "1:30,2:30:36S,-3", "1e3,12W", "7", "1,5é"];
 const TEXT_ADV: [&str; 6] = ["", "a,b", "true", "é", "1:30", "6378137,298.25"];
 const SURE_BAD: [&str; 7] = ["abc", "1:2:3:4", "", "1::2", "x1", "1..2", "é1"];
@@ -2558,6 +2569,660 @@ fn check_history(c: &HistCase, rec: &mut Rec) -> CaseResult {
 }
 
 // ===================================================================================
+// spellings of presence of a flag x every place a flag is read
+// ===================================================================================
+//
+// "A flag is a boolean that is true if present, false if not" (OpParameter::Flag), the
+// tokenizer documents `flag` -> `flag=true`, and the property lists the empty value among the
+// spellings: bare `key`, `key=true` in any letter case and the explicit empty value `key=`
+// are spellings of PRESENCE. The oracle is absolute: every such spelling must behave exactly
+// like the bare flag (instantiation, step list, typed parameters, apply both directions), the
+// bare flag must do what the documentation says (closed form for addone definitions,
+// observable difference from the definition without the flag elsewhere), and the flag must be
+// reported as set where it is read. Contrast spellings: `key=false` (rejected with an error
+// naming the parameter, or behaves as if the key were absent), other texts (rejected naming the
+// parameter, or as absent, or as present - nothing else).
+
+const FPROBES: [[f64; 4]; 2] = [[0.25, 0.96, 10., 2020.], [0.125, -0.5, 100., 2021.]];
+
+const TYPED_ARGS: &str = "nat_req=5 int_req=-4 real_req=1.5 ser_req=1,2 txt_req=abc txts_req=a,b";
+
+/// Macros registered for this section (besides those of Minimal::new()).
+const FMACROS: [(&str, &str); 15] = [
+    ("c16f:one", "addone"),
+    ("c16f:two", "addone | addone"),
+    ("c16f:utm", "utm zone=32"),
+    ("c16f:outer", "c16f:utm"),
+    ("c16f:utmp", "noop | utm zone=$zone(32)"),
+    ("c16f:shift", "helmert x=$shift(1) y=(2) | addone"),
+    ("c16f:typed", "c16typed nat_req=5 int_req=-4 real_req=1.5 ser_req=1,2 txt_req=abc txts_req=a,b"),
+    ("c16f:lat", "latitude"),
+    ("c16f:grav", "gravity"),
+    ("c16f:pp", "push v_2 | addone | pop v_2"),
+    ("c16f:utmd", "utm zone=32 south=$s"),
+    ("c16f:omd", "addone | addone omit_fwd=$o(false)"),
+    ("c16f:oid", "addone omit_inv=$o(false) | addone"),
+    ("c16f:invd", "addone inv=$i"),
+    ("c16f:typedd", "c16typed nat_req=5 int_req=-4 real_req=1.5 ser_req=1,2 txt_req=abc txts_req=a,b f_1=$f"),
+];
+
+struct FSite {
+    label: String,
+    /// gamut | inv | omit | macro-inv | macro-omit | macro-global | macro-dollar
+    route: &'static str,
+    /// alternatives for the steps in front of the step that carries the flag (with separator)
+    befores: Vec<&'static str>,
+    name: &'static str,
+    args: &'static str,
+    /// alternatives for what follows the step ("" or text that starts with a step separator)
+    posts: Vec<&'static str>,
+    key: &'static str,
+    /// further parameter names an error may name (the key bound through `$key` in a macro body)
+    names: Vec<&'static str>,
+    /// (step offset from the number of steps in `before`, key): must be reported as set
+    read: Option<(usize, &'static str)>,
+    /// the documentation gives the bare flag an effect on apply (or on instantiation)
+    observable: bool,
+    /// addone definitions: documented change of the first coordinate (forward, inverse) with the flag
+    closed: Option<(i32, i32)>,
+    /// the composed text is the BODY of a macro, the definition is the invocation of that macro
+    in_body: bool,
+}
+
+const POSTS_NOOP: [&str; 6] = ["", " | noop", "|noop", "\n| noop", " > noop", " < noop"];
+const POSTS_ADDONE: [&str; 3] = [" | addone", "|addone", "\n| addone"];
+const B2: [&str; 2] = ["", "noop | "];
+const B_ADDONE: [&str; 2] = ["addone | ", "addone|"];
+const FTAILS: [&str; 7] = ["", " ", "\n", "\r\n", "\t", " # note\n", "\r"];
+
+fn fsites() -> Vec<FSite> {
+    let mut v: Vec<FSite> = vec![];
+    let site = |route: &'static str, name: &'static str, args: &'static str, key: &'static str| FSite {
+        label: format!("{route}:{name}.{key}"),
+        route,
+        befores: B2.to_vec(),
+        name,
+        args,
+        posts: POSTS_NOOP.to_vec(),
+        key,
+        names: vec![],
+        read: Some((0, key)),
+        observable: false,
+        closed: None,
+        in_body: false,
+    };
+    // ---- flags in the gamuts of built-in operators (and of the harness operator)
+    let gamut: [(&'static str, &'static str, &[&'static str], bool); 12] = [
+        ("utm", "zone=32", &["south"], true),
+        ("butm", "zone=32", &["south"], true),
+        ("helmert", "x=1 y=2 z=3 rx=1 ry=2 rz=3 convention=position_vector", &["exact"], false),
+        ("molodensky", "dx=10 dy=20 dz=30 da=251 df=1.4e-5", &["abridged"], false),
+        ("latitude", "", &["geocentric", "reduced", "parametric", "conformal", "authalic", "rectifying"], true),
+        ("latitude", "ellps=intl", &["geocentric", "authalic"], true),
+        ("gravity", "", &["cassinis", "jeffreys", "grs67", "welmec"], true),
+        ("gravity", "", &["grs80", "zero-height"], false),
+        ("curvature", "", &["prime", "meridian", "gaussian", "mean", "azimuthal"], true),
+        ("geodesic", "", &["reversible"], false),
+        ("omerc", "latc=55 lonc=9 alpha=30", &["variant"], false),
+        ("c16typed", TYPED_ARGS, &["flag_a"], false),
+    ];
+    for (name, args, keys, observable) in gamut {
+        for key in keys {
+            v.push(FSite { observable, ..site("gamut", name, args, key) });
+        }
+    }
+    v.push(FSite { observable: true, ..site("gamut", "c16typed", TYPED_ARGS, "f_1") });
+    // the pipeline-only operators
+    v.push(FSite { befores: vec!["stack push=1,2 | "], posts: vec![" | stack pop=2,1", "|stack pop=2,1", "\n| stack pop=2,1"], read: Some((0, "swap")), observable: true, ..site("gamut", "stack", "", "swap") });
+    v.push(FSite { befores: vec!["stack push=1,2 | "], posts: vec![" | noop", "|noop"], ..site("gamut", "stack", "", "drop") });
+    for (key, other) in [("v_1", "v_2"), ("v_2", "v_1"), ("v_3", "v_1"), ("v_4", "v_2")] {
+        v.push(FSite { befores: vec![""], posts: vec![" | addone | pop v_1 v_2 v_3 v_4", "|addone|pop v_1 v_2 v_3 v_4"], observable: true, ..site("gamut", "push", other, key) });
+        v.push(FSite { befores: vec!["push v_1 v_2 v_3 v_4 | addone | "], observable: true, ..site("gamut", "pop", other, key) });
+    }
+    // ---- `inv` on elementary operators, alone and as steps of a pipeline
+    let inv_ops: [(&'static str, &'static str); 26] = [
+        ("addone", ""),
+        ("cart", ""),
+        ("cart", "ellps=intl"),
+        ("utm", "zone=32"),
+        ("butm", "zone=32"),
+        ("tmerc", "lon_0=9"),
+        ("btmerc", "lon_0=9"),
+        ("merc", ""),
+        ("webmerc", ""),
+        ("laea", "lat_0=52 lon_0=10"),
+        ("lcc", "lat_1=35 lat_2=45"),
+        ("somerc", "lat_0=46.95 lon_0=7.44"),
+        ("omerc", "latc=55 lonc=9 alpha=30"),
+        ("helmert", "x=1 y=2 z=3"),
+        ("molodensky", "dx=10 dy=20 dz=30"),
+        ("axisswap", "order=2,3,1"),
+        ("unitconvert", "xy_in=deg xy_out=rad"),
+        ("adapt", "from=neuf_deg"),
+        ("permtide", "from=mean to=zero"),
+        ("latitude", "geocentric"),
+        ("geodesic", ""),
+        ("dm", ""),
+        ("dms", ""),
+        ("c16typed", TYPED_ARGS),
+        ("noop", ""),
+        ("noop", "foo=bar"),
+    ];
+    for (name, args) in inv_ops {
+        let addone = name == "addone";
+        v.push(FSite { observable: name != "noop", closed: addone.then_some((-1, 1)), read: (name != "noop").then_some((0, "inv")), ..site("inv", name, args, "inv") });
+    }
+    // ---- omit_fwd / omit_inv on steps of a pipeline
+    let omit_ops: [(&'static str, &'static str); 7] =
+        [("addone", ""), ("utm", "zone=32"), ("helmert", "x=1 y=2 z=3"), ("cart", ""), ("c16typed", TYPED_ARGS), ("noop", ""), ("unitconvert", "xy_in=deg xy_out=rad")];
+    for (name, args) in omit_ops {
+        let addone = name == "addone";
+        for key in ["omit_fwd", "omit_inv"] {
+            let fwd = key == "omit_fwd";
+            // last of two steps, and first of two steps
+            v.push(FSite { befores: B_ADDONE.to_vec(), observable: name != "noop", closed: addone.then_some(if fwd { (1, -2) } else { (2, -1) }), ..site("omit", name, args, key) });
+            v.push(FSite {
+                label: format!("omit:{name}.{key}@first"),
+                befores: vec![""],
+                posts: POSTS_ADDONE.to_vec(),
+                observable: name != "noop",
+                closed: addone.then_some(if fwd { (1, -2) } else { (2, -1) }),
+                ..site("omit", name, args, key)
+            });
+        }
+    }
+    // ---- modifiers of a macro invocation (read from the tokenized invocation, not by ParsedParameters)
+    let macros: [(&'static str, &'static str, Option<i32>); 8] = [
+        ("c16f:one", "", Some(1)),
+        ("c16f:two", "", Some(2)),
+        ("c16f:two", "note=x", Some(2)),
+        ("c16f:utm", "", None),
+        ("c16f:outer", "", None),
+        ("c16f:shift", "shift=3", None),
+        ("c16f:utmp", "zone=33", None),
+        ("geo:in", "", None),
+    ];
+    for (name, args, n) in macros {
+        v.push(FSite { read: None, observable: true, closed: n.map(|n| (-n, n)), ..site("macro-inv", name, args, "inv") });
+        for key in ["omit_fwd", "omit_inv"] {
+            let fwd = key == "omit_fwd";
+            v.push(FSite { befores: B_ADDONE.to_vec(), observable: true, closed: n.map(|n| if fwd { (1, -1 - n) } else { (1 + n, -1) }), ..site("macro-omit", name, args, key) });
+            v.push(FSite {
+                label: format!("macro-omit:{name}.{key}@first"),
+                befores: vec![""],
+                posts: POSTS_ADDONE.to_vec(),
+                observable: true,
+                closed: n.map(|n| if fwd { (1, -1 - n) } else { (1 + n, -1) }),
+                ..site("macro-omit", name, args, key)
+            });
+        }
+    }
+    // ---- flags handed down to the body of a macro through its arguments (globals)
+    v.push(FSite { observable: true, ..site("macro-global", "c16f:utm", "", "south") });
+    v.push(FSite { observable: true, ..site("macro-global", "c16f:utm", "note=x", "south") });
+    v.push(FSite { observable: true, ..site("macro-global", "c16f:outer", "", "south") });
+    v.push(FSite { befores: vec![""], posts: vec![""], read: Some((1, "south")), observable: true, ..site("macro-global", "c16f:utmp", "zone=33", "south") });
+    v.push(FSite { label: "macro-global:c16f:utmp.south@step".into(), befores: vec![""], posts: POSTS_NOOP[1..].to_vec(), read: None, observable: true, ..site("macro-global", "c16f:utmp", "zone=33", "south") });
+    v.push(FSite { befores: vec!["noop | "], read: None, observable: true, ..site("macro-global", "c16f:utmp", "", "south") });
+    v.push(FSite { observable: true, ..site("macro-global", "c16f:typed", "", "f_1") });
+    v.push(FSite { ..site("macro-global", "c16f:typed", "", "flag_a") });
+    v.push(FSite { observable: true, ..site("macro-global", "c16f:lat", "", "geocentric") });
+    v.push(FSite { observable: true, ..site("macro-global", "c16f:lat", "ellps=intl", "conformal") });
+    v.push(FSite { observable: true, ..site("macro-global", "c16f:grav", "", "welmec") });
+    v.push(FSite { befores: vec![""], posts: vec![""], observable: true, ..site("macro-global", "c16f:pp", "", "v_1") });
+    v.push(FSite { label: "macro-global:c16f:pp.v_1@step".into(), befores: vec!["noop | "], read: None, observable: true, ..site("macro-global", "c16f:pp", "", "v_1") });
+    // ... and bound by name in the body (`flag=$arg`)
+    v.push(FSite { names: vec!["south"], read: Some((0, "south")), observable: true, ..site("macro-dollar", "c16f:utmd", "", "s") });
+    v.push(FSite { names: vec!["f_1"], read: Some((0, "f_1")), observable: true, ..site("macro-dollar", "c16f:typedd", "", "f") });
+    v.push(FSite { befores: vec![""], posts: vec![""], names: vec!["omit_fwd"], read: Some((1, "omit_fwd")), observable: true, closed: Some((1, -2)), ..site("macro-dollar", "c16f:omd", "", "o") });
+    v.push(FSite { befores: vec![""], posts: vec![""], names: vec!["omit_inv"], read: Some((0, "omit_inv")), observable: true, closed: Some((2, -1)), ..site("macro-dollar", "c16f:oid", "", "o") });
+    v.push(FSite { label: "macro-dollar:c16f:omd.o@step".into(), names: vec!["omit_fwd"], read: None, observable: true, closed: Some((1, -2)), ..site("macro-dollar", "c16f:omd", "", "o") });
+    v.push(FSite { names: vec!["inv"], read: Some((0, "inv")), observable: true, closed: Some((-1, 1)), ..site("macro-dollar", "c16f:invd", "", "i") });
+    // ---- the same places written in the body of a macro (resource text)
+    let bodies: [(&'static str, &'static str, &'static str, &'static str, bool, Option<(i32, i32)>); 9] = [
+        ("gamut", "utm", "zone=32", "south", true, None),
+        ("gamut", "latitude", "", "geocentric", true, None),
+        ("gamut", "c16typed", TYPED_ARGS, "f_1", true, None),
+        ("inv", "addone", "", "inv", true, Some((-1, 1))),
+        ("inv", "utm", "zone=32", "inv", true, None),
+        ("macro-inv", "c16f:two", "", "inv", true, Some((-2, 2))),
+        ("macro-global", "c16f:utm", "", "south", true, None),
+        ("omit", "addone", "", "omit_fwd", true, Some((1, -2))),
+        ("macro-omit", "c16f:two", "", "omit_inv", true, Some((3, -1))),
+    ];
+    for (route, name, args, key, observable, closed) in bodies {
+        let omit = key.starts_with("omit");
+        v.push(FSite {
+            label: format!("body/{route}:{name}.{key}"),
+            befores: if omit { vec!["addone | "] } else { vec![""] },
+            read: if route == "macro-inv" { None } else { Some((0, key)) },
+            observable,
+            closed,
+            in_body: true,
+            ..site(route, name, args, key)
+        });
+    }
+    v
+}
+
+/// (label, class for the failure key, kind: 0 present / 1 false / 2 other, token)
+fn fspellings(key: &str) -> Vec<(String, &'static str, u8, String)> {
+    let mut v: Vec<(String, &'static str, u8, String)> = vec![
+        ("bare".into(), "bare", 0, key.to_string()),
+        ("=true".into(), "true", 0, format!("{key}=true")),
+        ("=TRUE".into(), "true-any-case", 0, format!("{key}=TRUE")),
+        ("=True".into(), "true-any-case", 0, format!("{key}=True")),
+        ("=tRuE".into(), "true-any-case", 0, format!("{key}=tRuE")),
+        ("=".into(), "empty", 0, format!("{key}=")),
+        (" =".into(), "empty", 0, format!("{key} =")),
+        (" = true".into(), "true", 0, format!("{key} = true")),
+        ("= TRUE".into(), "true-any-case", 0, format!("{key}= TRUE")),
+        ("=false".into(), "false", 1, format!("{key}=false")),
+        ("=FALSE".into(), "false", 1, format!("{key}=FALSE")),
+        ("=False".into(), "false", 1, format!("{key}=False")),
+    ];
+    for t in ["0", "1", "yes", "no", "truee", "é"] {
+        v.push((format!("={t}"), "other", 2, format!("{key}={t}")));
+    }
+    if let Some(sk) = subscripted(key) {
+        v.push(("sub-bare".into(), "subscript", 0, sk.clone()));
+        v.push(("sub=".into(), "subscript-empty", 0, format!("{sk}=")));
+        v.push(("sub=true".into(), "subscript", 0, format!("{sk}=true")));
+        v.push(("sub=false".into(), "false", 1, format!("{sk}=false")));
+    }
+    v
+}
+
+#[derive(Clone, Debug, Serialize, Deserialize)]
+struct FDef {
+    /// macros registered before instantiation (besides the fixed ones of this section)
+    macros: Vec<(String, String)>,
+    text: String,
+}
+
+#[derive(Clone, Debug, Serialize, Deserialize)]
+struct FlagCase {
+    site: String,
+    route: String,
+    /// single | step | body
+    place: String,
+    key: String,
+    names: Vec<String>,
+    spelling: String,
+    class: String,
+    /// 0 present, 1 false, 2 other text, 3 empty value followed by another token (documented glue `k= v` -> `k=v`)
+    kind: u8,
+    layout: String,
+    variant: FDef,
+    /// the same definition with the bare flag (kind 3: with the value glued to the key)
+    bare: FDef,
+    /// the same definition without the flag
+    absent: FDef,
+    read: Option<(usize, String)>,
+    observable: bool,
+    closed: Option<(i32, i32)>,
+}
+
+/// Compact index of the enumeration: (site, before, spelling, position 0 last / 1 first / 2 glue, tail, post)
+type FIdx = (u16, u8, u8, u8, u8, u8);
+
+/// quick tier: every tail in front of the first two `posts` alternatives, the other alternatives
+/// directly behind the token; thorough tier: the full product
+fn findex(sites: &[FSite], full: bool) -> Vec<FIdx> {
+    let mut out = vec![];
+    for (si, s) in sites.iter().enumerate() {
+        let sp = fspellings(s.key);
+        for bi in 0..s.befores.len() {
+            for po in 0..s.posts.len() {
+                // the spelling is the innermost dimension: neighbours share the bare and the flag-less definition
+                for ti in 0..FTAILS.len() {
+                    if full || po < 2 || ti == 0 {
+                        for pi in 0..sp.len() {
+                            out.push((si as u16, bi as u8, pi as u8, 0, ti as u8, po as u8));
+                        }
+                    }
+                }
+                if !s.args.is_empty() && (full || po < 2) {
+                    // in front of the other arguments (an empty value is then glued to the next token)
+                    for (pi, (_, _, _, token)) in sp.iter().enumerate() {
+                        out.push((si as u16, bi as u8, pi as u8, if token.ends_with('=') { 2 } else { 1 }, 0, po as u8));
+                    }
+                }
+            }
+        }
+    }
+    out
+}
+
+fn fcompose(s: &FSite, before: &str, token: Option<&str>, pos: u8, tail: &str, post: &str, glued: bool) -> FDef {
+    let mut t = String::from(before);
+    t.push_str(s.name);
+    if pos != 0 {
+        if let Some(tok) = token {
+            t.push(' ');
+            t.push_str(tok);
+            if glued {
+                t.push_str(s.args);
+            }
+        }
+    }
+    if !s.args.is_empty() && !(glued && pos != 0) {
+        t.push(' ');
+        t.push_str(s.args);
+    }
+    if pos == 0 {
+        if let Some(tok) = token {
+            t.push(' ');
+            t.push_str(tok);
+        }
+    }
+    t.push_str(tail);
+    t.push_str(post);
+    if s.in_body {
+        FDef { macros: vec![("c16f:body".to_string(), t)], text: "c16f:body".to_string() }
+    } else {
+        FDef { macros: vec![], text: t }
+    }
+}
+
+fn flag_case(sites: &[FSite], ix: FIdx) -> FlagCase {
+    let (si, bi, pi, pos, ti, po) = ix;
+    let s = &sites[si as usize];
+    let sp = fspellings(s.key);
+    let (label, class, kind, token) = &sp[pi as usize];
+    let before = s.befores[bi as usize];
+    let tail = FTAILS[ti as usize];
+    let post = s.posts[po as usize];
+    let variant = fcompose(s, before, Some(token), pos, tail, post, false);
+    let (kind, bare) = if pos == 2 {
+        (3u8, fcompose(s, before, Some(token), pos, tail, post, true))
+    } else {
+        (*kind, fcompose(s, before, Some(s.key), pos, tail, post, false))
+    };
+    let absent = fcompose(s, before, None, pos, tail, post, false);
+    let nbefore = before.matches(['|', '<', '>']).count();
+    let place = if s.in_body {
+        "body"
+    } else if before.is_empty() && post.is_empty() {
+        "single"
+    } else {
+        "step"
+    };
+    let mut names: Vec<String> = vec![s.key.to_string()];
+    names.extend(s.names.iter().map(|n| n.to_string()));
+    FlagCase {
+        site: s.label.clone(),
+        route: s.route.to_string(),
+        place: place.to_string(),
+        key: s.key.to_string(),
+        names,
+        spelling: label.clone(),
+        class: class.to_string(),
+        kind,
+        layout: format!("pos{pos}/tail{:?}/post{:?}", tail, post),
+        variant,
+        bare,
+        absent,
+        read: s.read.map(|(off, k)| (nbefore + off, k.to_string())),
+        observable: s.observable,
+        closed: s.closed,
+    }
+}
+
+struct FObs {
+    /// (name, keys) of every reported step
+    steps: Vec<(String, Vec<String>)>,
+    /// typed content of every parameter set (the raw `given` texts left out)
+    params: Vec<String>,
+    booleans: Vec<Vec<String>>,
+    fwd: Result<(usize, Vec<Coor4D>), String>,
+    inv: Result<(usize, Vec<Coor4D>), String>,
+}
+
+impl FObs {
+    fn same(&self, o: &FObs) -> Option<String> {
+        if self.steps != o.steps {
+            return Some(format!("step lists differ: {:?} vs {:?}", self.steps, o.steps));
+        }
+        if self.params != o.params {
+            for (i, (a, b)) in self.params.iter().zip(&o.params).enumerate() {
+                if a != b {
+                    return Some(format!("parameters of step {i} differ:\n     {a}\n  vs {b}"));
+                }
+            }
+            return Some(format!("{} parameter sets vs {}", self.params.len(), o.params.len()));
+        }
+        if !same_result(&self.fwd, &o.fwd) {
+            return Some(format!("forward results differ: {} vs {}", fmt_result(&self.fwd), fmt_result(&o.fwd)));
+        }
+        if !same_result(&self.inv, &o.inv) {
+            return Some(format!("inverse results differ: {} vs {}", fmt_result(&self.inv), fmt_result(&o.inv)));
+        }
+        None
+    }
+    /// the same operator, whatever the step texts say (typed parameters and behaviour)
+    fn same_op(&self, o: &FObs) -> bool {
+        self.params == o.params && self.same_behaviour(o)
+    }
+    fn same_behaviour(&self, o: &FObs) -> bool {
+        same_result(&self.fwd, &o.fwd) && same_result(&self.inv, &o.inv)
+    }
+}
+
+/// Outer Err = panic; inner Err = the instantiation error.
+fn fobserve(d: &FDef) -> Result<Result<FObs, Error>, Fail2> {
+    let mut ctx = Minimal::new();
+    ctx.register_op("c16typed", OpConstructor(typed_new));
+    for (n, b) in FMACROS {
+        ctx.register_resource(n, b);
+    }
+    for (n, b) in &d.macros {
+        ctx.register_resource(n, b);
+    }
+    let text = d.text.as_str();
+    let op = match try_op(&mut ctx, text) {
+        Err(p) => return Err((format!("panic-instantiate@{}", panic_kind(&p)), format!("instantiation panics: {} at {}:{}", p.msg, p.file, p.line))),
+        Ok(Err(e)) => return Ok(Err(e)),
+        Ok(Ok(op)) => op,
+    };
+    let step_texts = match guard::guard(|| ctx.steps(op).map(|s| s.clone())) {
+        Err(p) => return Err((format!("panic-steps@{}", panic_kind(&p)), format!("ctx.steps panics: {}", p.msg))),
+        Ok(Err(e)) => return Err(("steps-error".into(), format!("ctx.steps returns {e:?}"))),
+        Ok(Ok(s)) => s,
+    };
+    let mut steps = vec![];
+    for st in &step_texts {
+        let m = match guard::guard(|| st.split_into_parameters()) {
+            Ok(m) => m,
+            Err(p) => return Err((format!("panic-split_into_parameters@{}", panic_kind(&p)), format!("split_into_parameters('{st}') panics: {}", p.msg))),
+        };
+        let name = m.get("_name").cloned().unwrap_or_default();
+        steps.push((name, m.keys().filter(|k| *k != "_name").cloned().collect()));
+    }
+    let mut params = vec![];
+    let mut booleans = vec![];
+    for i in 0..24 {
+        match guard::guard(|| ctx.params(op, i)) {
+            Err(p) => return Err((format!("panic-params-access@{}", panic_kind(&p)), format!("ctx.params panics: {}", p.msg))),
+            Ok(Err(_)) => break,
+            Ok(Ok(p)) => {
+                params.push(format!(
+                    "{:?} flags {:?} naturals {:?} integers {:?} reals {:?} series {:?} texts {:?} {:?} coefficients {:?}",
+                    p.name, p.boolean, p.natural, p.integer, p.real, p.series, p.text, p.texts, p.fourier_coefficients
+                ));
+                booleans.push(p.boolean.iter().map(|b| b.to_string()).collect());
+            }
+        }
+    }
+    let probes: Vec<Coor4D> = FPROBES.iter().map(|p| Coor4D(*p)).collect();
+    let run = |fwd: bool| -> Result<Result<(usize, Vec<Coor4D>), String>, Fail2> {
+        let mut data = probes.clone();
+        match try_apply(&ctx, op, dir_of(fwd), &mut data) {
+            Err(p) => Err((format!("panic-apply@{}", panic_kind(&p)), format!("apply ({}) panics: {} at {}:{}", if fwd { "fwd" } else { "inv" }, p.msg, p.file, p.line))),
+            Ok(Err(e)) => Ok(Err(format!("{e:?}"))),
+            Ok(Ok(n)) => Ok(Ok((n, data))),
+        }
+    };
+    let fwd = run(true)?;
+    let inv = run(false)?;
+    Ok(Ok(FObs { steps, params, booleans, fwd, inv }))
+}
+
+thread_local! {
+    /// the last few observations of reference definitions (bare flag, no flag) on this thread:
+    /// neighbouring cases of the enumeration share them; an observation is a pure function of
+    /// the definition, so the cache cannot change any verdict
+    static FCACHE: std::cell::RefCell<Vec<(String, Result<std::rc::Rc<FObs>, String>)>> = const { std::cell::RefCell::new(Vec::new()) };
+}
+
+fn fobserve_ref(d: &FDef) -> Result<Result<std::rc::Rc<FObs>, String>, Fail2> {
+    let key = format!("{:?}\u{1}{}", d.macros, d.text);
+    if let Some(hit) = FCACHE.with(|c| c.borrow().iter().find(|e| e.0 == key).map(|e| e.1.clone())) {
+        return Ok(hit);
+    }
+    let o = fobserve(d)?.map(std::rc::Rc::new).map_err(|e| format!("{e:?}"));
+    FCACHE.with(|c| {
+        let mut c = c.borrow_mut();
+        if c.len() >= 6 {
+            let _ = c.remove(0);
+        }
+        c.push((key, o.clone()));
+    });
+    Ok(o)
+}
+
+fn error_names(e: &Error, names: &[String]) -> bool {
+    let named: Option<&String> = match e {
+        Error::BadParam(k, _) | Error::MissingParam(k) => Some(k),
+        _ => None,
+    };
+    let shown = format!("{e}");
+    names.iter().any(|n| named == Some(n) || shown.contains(&format!("'{n}'")))
+}
+
+fn fdef_show(d: &FDef) -> String {
+    if d.macros.is_empty() {
+        format!("{:?}", d.text)
+    } else {
+        format!("{:?} with {}", d.text, d.macros.iter().map(|(n, b)| format!("{n} = {b:?}")).collect::<Vec<_>>().join(", "))
+    }
+}
+
+fn check_flag(c: &FlagCase, rec: &mut Rec) -> CaseResult {
+    let show = |what: &str| format!("{what}\n  site {} ({}, {}), key {}, spelling '{}', layout {}\n  definition: {}\n  bare flag:  {}\n  no flag:    {}", c.site, c.route, c.place, c.key, c.spelling, c.layout, fdef_show(&c.variant), fdef_show(&c.bare), fdef_show(&c.absent));
+    let variant = match fobserve(&c.variant) {
+        Ok(o) => o,
+        Err((k, m)) => return Err(Failure { key: k, msg: show(&format!("{}: {m}", fdef_show(&c.variant))) }),
+    };
+    let obs_ref = |d: &FDef| -> Result<Result<std::rc::Rc<FObs>, String>, Failure> {
+        match fobserve_ref(d) {
+            Ok(o) => Ok(o),
+            Err((k, m)) => Err(Failure { key: k, msg: show(&format!("{}: {m}", fdef_show(d))) }),
+        }
+    };
+    let bare = obs_ref(&c.bare)?;
+    let absent = obs_ref(&c.absent)?;
+    rec.class(&format!("route:{}", c.route));
+    rec.class(&format!("place:{}", c.place));
+    rec.class(&format!("spelling:{}", c.class));
+    rec.class(["kind:present", "kind:false", "kind:other-text", "kind:empty-then-token"][c.kind.min(3) as usize]);
+    let tag = format!("{}:{}", c.class, c.route);
+
+    if c.kind == 3 {
+        // documented normalisation rule 1: `key= value` is `key=value`
+        match (&variant, &bare) {
+            (Ok(a), Ok(b)) => {
+                if let Some(d) = a.same(b) {
+                    vfail!(format!("flag-presence:glue:{}", c.route), "{}", show(&format!("'key= value' and 'key=value' instantiate differently: {d}")));
+                }
+                rec.class("glue:both-accepted");
+            }
+            (Err(_), Err(_)) => rec.class("glue:both-rejected"),
+            (a, b) => vfail!(
+                format!("flag-presence:glue:{}", c.route),
+                "{}",
+                show(&format!("'key= value' gives {:?}, 'key=value' gives {:?}", a.as_ref().map(|_| "an operator").map_err(|e| format!("{e:?}")), b.as_ref().map(|_| "an operator")))
+            ),
+        }
+        return Ok(());
+    }
+
+    // the reference itself: the bare flag is accepted and does what the documentation says
+    let bare = match bare {
+        Ok(b) => b,
+        Err(e) => vfail!(format!("flag-presence:bare:{}:rejected", c.route), "{}", show(&format!("the definition with the bare flag is rejected: {e}"))),
+    };
+    if let Some((i, k)) = &c.read {
+        let set = bare.booleans.get(*i).map(|b| b.contains(k)).unwrap_or(false);
+        vensure!(set, format!("flag-presence:bare:{}:not-set", c.route), "{}", show(&format!("bare flag: ctx.params(op, {i}).boolean({k:?}) is false; flags {:?}", bare.booleans)));
+    }
+    let closed = |o: &FObs, who: &str| -> Result<(), String> {
+        let Some((df, di)) = c.closed else { return Ok(()) };
+        for (res, d, dir) in [(&o.fwd, df, "forward"), (&o.inv, di, "inverse")] {
+            match res {
+                Ok((n, data)) if *n == FPROBES.len() && data.iter().zip(FPROBES.iter()).all(|(g, p)| g[0] == p[0] + d as f64 && g[1] == p[1] && g[2] == p[2] && g[3] == p[3]) => {}
+                other => return Err(format!("{who}: {dir} must add {d} to the first coordinate of {:?}, got {}", FPROBES, fmt_result(other))),
+            }
+        }
+        Ok(())
+    };
+    if let Err(m) = closed(&bare, "bare flag") {
+        vfail!(format!("flag-presence:bare:{}:behaviour", c.route), "{}", show(&m));
+    }
+    if c.observable {
+        let differs = match &absent {
+            Err(_) => true,
+            Ok(a) => !a.same_behaviour(&bare),
+        };
+        vensure!(differs, format!("flag-presence:bare:{}:no-effect", c.route), "{}", show("the bare flag has no effect: same behaviour as the definition without it"));
+        rec.class("bare-differs-from-absent");
+    }
+
+    match c.kind {
+        0 => {
+            let v = match variant {
+                Ok(v) => v,
+                Err(e) => vfail!(format!("flag-presence:{tag}:rejected"), "{}", show(&format!("a flag is true when present, but this spelling of presence is rejected: {e:?}"))),
+            };
+            if let Some((i, k)) = &c.read {
+                let set = v.booleans.get(*i).map(|b| b.contains(k)).unwrap_or(false);
+                vensure!(set, format!("flag-presence:{tag}:not-set"), "{}", show(&format!("the flag is present but ctx.params(op, {i}).boolean({k:?}) is false; flags {:?}, with the bare flag {:?}", v.booleans, bare.booleans)));
+            }
+            if let Err(m) = closed(&v, "this spelling") {
+                vfail!(format!("flag-presence:{tag}:behaviour"), "{}", show(&m));
+            }
+            if let Some(d) = v.same(&bare) {
+                let as_absent = absent.as_ref().map(|a| a.same_op(&v)).unwrap_or(false);
+                vfail!(format!("flag-presence:{tag}:behaviour"), "{}", show(&format!("the flag is present but the operator differs from the one with the bare flag{}: {d}", if as_absent { " (it equals the one WITHOUT the flag)" } else { "" })));
+            }
+            if c.spelling != "bare" {
+                rec.nontrivial(&(&c.variant.text, &c.variant.macros));
+            }
+        }
+        1 | 2 => match variant {
+            Err(e) => {
+                vensure!(error_names(&e, &c.names), format!("flag-presence:{tag}:error-does-not-name-parameter"), "{}", show(&format!("rejected with {e:?}, which names none of {:?}", c.names)));
+                rec.class(if c.kind == 1 { "false:rejected" } else { "other-text:rejected" });
+            }
+            Ok(v) => {
+                let as_absent = absent.as_ref().map(|a| a.same_op(&v)).unwrap_or(false);
+                let as_bare = v.same_op(&bare);
+                if c.kind == 1 {
+                    vensure!(as_absent, format!("flag-presence:{tag}:accepted-not-as-absent"), "{}", show(&format!("key=false is accepted, but the operator is not the one without the flag{}", if as_bare { " (it equals the one WITH the flag)" } else { "" })));
+                    rec.class("false:as-absent");
+                } else {
+                    vensure!(as_absent || as_bare, format!("flag-presence:{tag}:neither-present-nor-absent"), "{}", show("the value is accepted, but the operator is neither the one with the bare flag nor the one without the flag"));
+                    rec.class(if as_absent { "other-text:as-absent" } else { "other-text:as-present" });
+                }
+                rec.nontrivial(&(&c.variant.text, &c.variant.macros));
+            }
+        },
+        _ => vfail!("harness-flag-kind", "kind {}", c.kind),
+    }
+    Ok(())
+}
+
+// ===================================================================================
 // main
 // ===================================================================================
 
@@ -2570,7 +3235,7 @@ fn main() {
     run.assume("well-formed definition = steps that start with a name (modifiers may precede it), key=value pairs without blanks inside values except around ',' and ':', flags; a one-way delimiter < or > is directly followed by its step (an empty one-way step such as 'a > > b' is outside the statement)");
     run.assume("a continuation colon is the first character of a line; a value that is empty or ends in ',' is only written as the last token of a step, values never end in ':' (the documented normalisation glues 'k= v', 'k=a, b' and 'a: b')");
     run.assume("omit_fwd/omit_inv and the stack operators (stack, push, pop) are generated only in definitions of two or more steps (documented as pipeline-only)");
-    run.assume("typed values: a plain or exponent decimal must give the correctly rounded double (bit-exact, 0 = -0); a sexagesimal value must be within 3*2^-52 relative of the exact rational d+m/60+s/3600 times the product of the signs (the documented formula has five roundings); spellings the documentation is silent about (leading '+', '.5', 'inf', minutes >= 60, trailing comma, flag=<text>) may be accepted or rejected, but a rejection must name the parameter");
+    run.assume("typed values: a plain or exponent decimal must give the correctly rounded double (bit-exact, 0 = -0); a sexagesimal value must be within 3*2^-52 relative of the exact rational d+m/60+s/3600 times the product of the signs (the documented formula has five roundings); spellings the documentation is silent about (leading '+', '.5', 'inf', minutes >= 60, trailing comma, flag=<text other than the empty text or true in any letter case>) may be accepted or rejected, but a rejection must name the parameter");
     run.assume("garbage for a real = a component the Rust standard parser cannot read as a number; the standard parser is trusted for that decision and for decimal conversions outside |mantissa| < 2^53, |exponent| <= 22");
     run.assume("generated gamuts never use the keys inv, omit_fwd, omit_inv, ellps (modifiers / context global); an omitted parameter of a generated gamut must take that gamut's default whatever was instantiated before, in this or any other context of the process");
     run.assume("contexts: geodesy::Minimal with the harness operator 'c16typed' and two macros registered; the Plain context shares the same Op::new path and is not exercised here");
@@ -2639,6 +3304,18 @@ fn main() {
         check_history,
     );
 
-    run.finish("definition ASTs rendered with independent layouts judged against a reference tokenizer model and the canonical rendering (steps, parsed parameters, bit-identical behaviour); typed parameter values judged against a reference parser written from the documentation (exact rational arithmetic for sexagesimal values)");
+    // 7. spellings of presence of a flag x places where a flag is read
+    let sites = fsites();
+    let index = findex(&sites, run.is_thorough());
+    let nf = index.len();
+    run.enumerate(
+        "flag-presence",
+        "every flag of every built-in gamut that needs no grid (utm/butm south, helmert exact, molodensky abridged, latitude x6, gravity x6, curvature x5, geodesic reversible, omerc variant, stack swap/drop, push/pop v_1..v_4) and of the harness operator, `inv` on 24 invertible operators, omit_fwd/omit_inv on pipeline steps (first and last), inv/omit_fwd/omit_inv on macro invocations (single, pipeline and nested bodies, built-in geo:in), flags handed to macro bodies through arguments (globals, nested, `flag=$arg`), and the same places written inside a macro body; alone, as pipeline step and in front of </> sugar; crossed with the spellings bare, =true, =TRUE/True/tRuE, the explicit EMPTY value (`key=`, `key =`) as last token before end of text / blank / LF / CRLF / CR / tab / comment / `|` / `<` / `>`, blanks around '=', subscript digit keys, in front of the other arguments; contrast spellings =false (3 cases), 6 other texts, empty value followed by a token. Oracle (absolute): the bare flag is accepted, reported set by ctx.params where it is read, gives the documented closed form for addone definitions (exact) and differs from the definition without the flag where the documentation gives it an effect; every spelling of presence must equal the bare flag in step list (names, keys), typed parameters of every step and apply results both directions (bit-identical) on fresh contexts; =false: rejected naming the parameter or identical to the definition without the flag; other text: rejected naming the parameter, or identical to absent or to present; `key= value` identical to `key=value`; non-trivial = a spelling other than the bare flag",
+        nf,
+        move |i| flag_case(&sites, index[i]),
+        check_flag,
+    );
+
+    run.finish("definition ASTs rendered with independent layouts judged against a reference tokenizer model and the canonical rendering (steps, parsed parameters, bit-identical behaviour); typed parameter values judged against a reference parser written from the documentation (exact rational arithmetic for sexagesimal values); every spelling of presence of a flag (bare, =true in any case, explicit empty value) at every place a flag is read must equal the bare flag, whose documented effect is checked absolutely");
 }
 
